@@ -483,3 +483,62 @@ Definition spec_ok (c : case) (o : obs) : bool :=
       && (if closure_top (c_path c) then nodupb pr_eqb l else true)
   | _ => false
   end.
+
+(* ------------------------------------------------------------------ *)
+(* Histories on one Graph object: evaluations interleaved with additions and
+   removals of triples.  Every evaluation is judged against the graph content
+   at that moment (the answer must follow the data). *)
+Inductive hstep :=
+| HEval (p : path) (s o : option term) (sparql : bool)
+| HAdd (t : triple)
+| HDel (t : triple).
+
+Record hcase := { h_g : graph; h_steps : list hstep }.
+
+Definition g_add (t : triple) (g : graph) : graph := sadd triple_eqb t g.
+Definition g_del (t : triple) (g : graph) : graph := filter (fun u => negb (triple_eqb t u)) g.
+
+Definition hc (g : graph) (p : path) (s o : option term) (sp : bool) : case :=
+  {| c_g := g; c_path := p; c_s := s; c_o := o; c_sparql := sp |}.
+
+Fixpoint h_run (g : graph) (steps : list hstep) : list obs :=
+  match steps with
+  | [] => []
+  | HEval p s o sp :: r => model_obs (hc g p s o sp) :: h_run g r
+  | HAdd t :: r => h_run (g_add t g) r
+  | HDel t :: r => h_run (g_del t g) r
+  end.
+
+Fixpoint h_spec (g : graph) (steps : list hstep) (os : list obs) : bool :=
+  match steps with
+  | [] => match os with [] => true | _ => false end
+  | HEval p s o sp :: r =>
+      match os with
+      | [] => false
+      | ob :: os' => spec_ok (hc g p s o sp) ob && h_spec g r os'
+      end
+  | HAdd t :: r => h_spec (g_add t g) r os
+  | HDel t :: r => h_spec (g_del t g) r os
+  end.
+
+(* the first trigger that fires on an evaluation step *)
+Fixpoint h_kf (g : graph) (steps : list hstep) : N :=
+  match steps with
+  | [] => 0
+  | HEval p s o sp :: r => let k := kf (hc g p s o sp) in if N.eqb k 0 then h_kf g r else k
+  | HAdd t :: r => h_kf (g_add t g) r
+  | HDel t :: r => h_kf (g_del t g) r
+  end.
+
+Fixpoint h_wf (steps : list hstep) : bool :=
+  match steps with
+  | [] => true
+  | HEval p _ _ _ :: r => wfp p && h_wf r
+  | _ :: r => h_wf r
+  end.
+
+Definition hobs := list obs.
+Definition hobs_eqb (a b : hobs) : bool := list_eqb obs_eqb a b.
+Definition hmodel_obs (c : hcase) : hobs := h_run (h_g c) (h_steps c).
+Definition hspec_ok (c : hcase) (os : hobs) : bool := h_spec (h_g c) (h_steps c) os.
+Definition hkf (c : hcase) : N := h_kf (h_g c) (h_steps c).
